@@ -123,7 +123,7 @@ REGISTRY["C17"] = dict(
     claim=(
         "Decision-structure clauses: every Empty result of MediaQuery::merge is control-dependent on this_type == other_type, on exactly one query being negated and on the subset test; "
         "double negation with different types is Unrepresentable; merge_media_queries maps Empty/Unrepresentable/Success to skip/None/push over the cartesian product; a merged rule passes an enclosing @media only if all of its queries are merge sources (Iterator::all); merge_media_queries returns the list built from the merge results, never an input list; "
-        "visit_media_rule drops an empty intersection before creating a node and keeps unmergeable queries nested. (c) the outcome category (Empty / Unrepresentable / Success) of merge, extracted as predicate valuations per result site, equals a transliteration of dart-sass's merge on all 4608 combinations of conjunction, modifier, type (none/all/two concrete) and subset relations. NOT decided: which modifier/type/conditions a Success carries."
+        "visit_media_rule drops an empty intersection before creating a node and keeps unmergeable queries nested. (c) the outcome category (Empty / Unrepresentable / Success) of merge, extracted as predicate valuations per result site, equals a transliteration of dart-sass's merge on all 4608 combinations of conjunction, modifier, type (none/all/two concrete) and subset relations. In the one-negated/different-types branch the conditions kept are those of the positive query. NOT decided: the other components a Success carries."
     ),
     explanation="Clauses of DESIGN.md §3 C17 on MIR facts of the current tree. NOT decided: that the merged query is the logical intersection for all environments.",
     assumptions=TRUSTED,
@@ -135,7 +135,7 @@ REGISTRY["C05"] = dict(
     claim=(
         "Encoding and visibility clauses: (a) every write to Serializer.buffer / the local quoting buffer is an ASCII constant, a whole str, fmt output or the in-order copy of a source byte, no cutting operation is ever applied, "
         "and in the two byte-copy loops a byte >= 0x80 is always copied unchanged with nothing interleaved (safety of the two from_utf8_unchecked); (b) the unsafe inventory is exactly the three reviewed blocks; "
-        "(c) BOM/@charset are inserted exactly under (non-ASCII, allows_charset[, compressed]) and nothing else reads allows_charset; (d) invisible selectors/statements are filtered before any write; (e) in quoted strings the escaped byte set is exactly the C0 controls except tab (decision blocks evaluated for all 256 byte values) and a hex escape is followed by a space before a hex digit, space or tab; (f) attribute values are written unquoted only under is_ident(), which reaches its scanning loop only for a first character that is a non-digit name-start character; (g) the indented-syntax loud comment tests for its closing `*/` on text with trailing whitespace trimmed. "
+        "(c) BOM/@charset are inserted exactly under (non-ASCII, allows_charset[, compressed]) and nothing else reads allows_charset; (d) invisible selectors/statements are filtered before any write; (e) in quoted strings the escaped byte set is exactly the C0 controls except tab (decision blocks evaluated for all 256 byte values) and a hex escape is followed by a space before a hex digit, space or tab; (f) attribute values are written unquoted only under is_ident(), which reaches its scanning loop only for a first character that is a non-digit name-start character; (g) the indented-syntax loud comment tests for its closing `*/` on text with trailing whitespace trimmed; (h) a negation nested in a @supports condition is written in parentheses. "
         "NOT decided: balanced braces/strings/comments, absence of Sass-only syntax in values, re-parse idempotence."
     ),
     explanation="Clauses C05-a..d of DESIGN.md §3 on MIR/HIR facts of the current tree. NOT decided: well-formedness of the emitted text as CSS, fixed-point behaviour.",
@@ -184,7 +184,7 @@ REGISTRY["C14"] = dict(
     claim=(
         "Registry and signature clauses: (a) every sass:list/map/string member with a documented global alias is bound to the same fn item as that alias, no duplicate or underscore registrations; "
         "(b) every constant (position, name) read by the list/map/string built-ins and every max_args equals the documented signature; "
-        "(c) str-length/slice/index/insert count positions with chars(), never with byte lengths or byte indices; (d) nested-key map walks reassign their cursor map on every path through an iteration; (e) to-upper-case/to-lower-case use the ASCII case operations only. NOT decided: index arithmetic, separator/bracket inference, error cases (value semantics)."
+        "(c) str-length/slice/index/insert count positions with chars(), never with byte lengths or byte indices; (d) nested-key map walks reassign their cursor map on every path through an iteration; (e) to-upper-case/to-lower-case use the ASCII case operations only; (f) zip() takes the minimum of the argument lengths. NOT decided: index arithmetic, separator/bracket inference, error cases (value semantics)."
     ),
     explanation="Clauses C14-a..c of DESIGN.md §3 on MIR facts of the current tree and spec/builtin_{aliases,signatures}.json. NOT decided: the values the functions return.",
     assumptions=TRUSTED + ["spec tables transcribed from the Sass documentation"],
@@ -208,7 +208,7 @@ REGISTRY["C16"] = dict(
     claim=(
         "Crash and printing-table clauses: (a) every unit conversion in value/calculation.rs is guarded on the same pair on every path; (b) the full truth table of parenthesize_calculation_rhs equals "
         "`a o (b . c)` needing parentheses under real arithmetic, and the serializer uses it (right) and precedence() (left); (c) a negative right operand is negated and flips +/-; "
-        "(d) unsimplified min/max/clamp and +/- operations are built only after verify_compatible_numbers; (e) every conversion in the folding code goes from the operand's own unit to the unit of the operand it is compared with; (f) verify_compatible_numbers tests has_possibly_compatible_units inside two nested loops (every pair, the relation is not transitive). NOT decided: numeric equivalence of source and output expressions."
+        "(d) unsimplified min/max/clamp and +/- operations are built only after verify_compatible_numbers; (e) every conversion in the folding code goes from the operand's own unit to the unit of the operand it is compared with; (f) verify_compatible_numbers tests has_possibly_compatible_units inside two nested loops (every pair, the relation is not transitive); (g) an interpolated left operand of a calculation operation is always parenthesised. NOT decided: numeric equivalence of source and output expressions."
     ),
     explanation="Clauses of DESIGN.md §3 C16 on MIR facts of the current tree. NOT decided: that simplification preserves the computed value for all inputs.",
     assumptions=TRUSTED,
@@ -257,7 +257,7 @@ REGISTRY["C10"] = dict(
     technique="static analysis: must-reach rule (a field must have an error-producing reader / a consulted map must have a writer), visibility-filter dominance shared with C05-d, no-effect-operation-on-temporary detector; loop totality (must-pass) of register_selector; sibling accessor agreement for specificity bounds; provenance of popped components in merge_final_combinators",
     claim=(
         "Six structural clauses only: (a) Extension/ExtendRule.is_optional must be read by a branch whose mandatory edge can produce an Err (`extending a missing target is an error unless !optional`); "
-        "(b) placeholder selectors are filtered before anything is written (C05-d); (c) the media contexts consulted while extending are recorded by some writer, and `get_mut(k).replace(v)` on temporaries are reported (undecided); (d) register_selector records the rule under every simple selector and always descends into the inner list of a selector pseudo, independent of what the index already holds; (e) every min_specificity/max_specificity accessor reads and sums only its own bound, simple selectors carry the CSS weights, and pseudo-element vs pseudo-class weight is decided by `is_class`; (f) merge_final_combinators pushes a popped component back only onto the list it was popped from. "
+        "(b) placeholder selectors are filtered before anything is written (C05-d); (c) the media contexts consulted while extending are recorded by some writer, and `get_mut(k).replace(v)` on temporaries are reported (undecided); (d) register_selector records the rule under every simple selector and always descends into the inner list of a selector pseudo, independent of what the index already holds; (e) every min_specificity/max_specificity accessor reads and sums only its own bound, simple selectors carry the CSS weights, and pseudo-element vs pseudo-class weight is decided by `is_class`; (f) merge_final_combinators pushes a popped component back only onto the list it was popped from; (g) extend_pseudo merges pseudos only when name and argument agree. "
         "NOT decided: everything that makes @extend interesting - that rewritten selectors match the right elements, second-law specificity, trimming, media scoping semantics."
     ),
     explanation="Clauses of DESIGN.md §3 C10 on MIR facts of the current tree. Both (a) and the media-context part of (c) are violated on the pinned tree (missing features) and listed as known findings with reproducing inputs. NOT decided: matching semantics of extended selectors.",
